@@ -18,6 +18,8 @@ impl PublishedCursor {
 
     #[inline]
     pub(super) fn publish(&self, value: usize) {
+        #[cfg(feature = "verif-hooks")]
+        crate::verif::rt::pt1("cursor_publish", value);
         debug_assert!(value >= self.get(), "published cursors must not move backwards");
         self.0.store(value, Ordering::Release);
     }
@@ -80,10 +82,14 @@ impl RewindableAtomic for AtomicUsize {
 #[inline]
 fn claim_before(cursor: &impl RewindableAtomic, limit: usize) -> Option<usize> {
     loop {
+        #[cfg(feature = "verif-hooks")]
+        crate::verif::rt::pt1("vcur_load", limit);
         let current = cursor.load(Ordering::Acquire);
         if current >= limit {
             return None;
         }
+        #[cfg(feature = "verif-hooks")]
+        crate::verif::rt::pt2("vcur_cas", current, limit);
         if cursor
             .compare_exchange_weak(current, current + 1, Ordering::AcqRel, Ordering::Acquire)
             .is_ok()
@@ -116,6 +122,8 @@ impl RewindableCursor {
 
     #[inline]
     pub(super) fn rewind(&self, value: usize) -> usize {
+        #[cfg(feature = "verif-hooks")]
+        crate::verif::rt::pt1("vcur_rewind", value);
         self.0.fetch_min(value, Ordering::AcqRel)
     }
 }
